@@ -350,7 +350,16 @@ def audit (hm : Hm) (cat : List Server.ZoneCfg) (serverSize : Nat) (keys : List 
     (now : Nat) (udp : Bool) (r plain : Resp) : List String × String :=
   let sc := Server.specScan cat serverSize req
   if !sc.respond then ([], "no-response")
-  else if sc.verdict ≠ .tsigReached then ([], "pre-tsig")
+  else if sc.verdict ≠ .tsigReached then
+    -- no acceptable TSIG RR was reached (none in the request, or the request is malformed before
+    -- or at it): nothing was authenticated, so the response must not carry a TSIG RR
+    let tr := if udp then "udp" else "tcp"
+    match r with
+    | .bytes b =>
+      match specDecodeMsg b with
+      | some d => (if d.ar.any (fun r => r.ty = 250) then [s!"C10:tsig-in-response-without-acceptable-request-tsig-{tr}"] else [], "pre-tsig")
+      | none => ([], "pre-tsig")
+    | _ => ([], "pre-tsig")
   else match viewRequest hm keys req now with
     | none => ([], "pre-tsig")
     | some rv => auditResponse hm sc rv now udp (Server.hdr req 0) r plain
